@@ -268,6 +268,52 @@ theorem system_invariant_monoclinic (C11 C12 C13 C15 C22 C23 C25 C33 C35 C44 C46
         C11 C12 C13 C15 C22 C23 C25 C33 C35 C44 C46 C55 C66)) :=
   monoclinic_R2y C11 C12 C13 C22 C23 C33 C44 C55 C66 C15 C25 C35 C46
 
+/-- every crystal-system template is a symmetric 6x6 (so `major_symm`, `voigt_moduli_invariant`, … apply to it). -/
+theorem templates_symmetric
+    (C11 C12 C13 C14 C15 C16 C22 C23 C24 C25 C26 C33 C34 C35 C36 C44 C45 C46 C55 C56 C66 : K) :
+    Symm6 (m6 (ctor_C11_C12_C44 C11 C12 C44)) ∧
+    Symm6 (m6 (ctor_C11_C12_C13_C33_C44 C11 C12 C13 C33 C44)) ∧
+    Symm6 (m6 (ctor_C11_C12_C13_C14_C15_C33_C44 C11 C12 C13 C14 C15 C33 C44)) ∧
+    Symm6 (m6 (ctor_C11_C12_C13_C16_C33_C44_C66 C11 C12 C13 C16 C33 C44 C66)) ∧
+    Symm6 (m6 (ctor_C11_C12_C13_C22_C23_C33_C44_C55_C66 C11 C12 C13 C22 C23 C33 C44 C55 C66)) ∧
+    Symm6 (m6 (ctor_C11_C12_C13_C15_C22_C23_C25_C33_C35_C44_C46_C55_C66
+      C11 C12 C13 C15 C22 C23 C25 C33 C35 C44 C46 C55 C66)) ∧
+    Symm6 (m6 (ctor_C11_C12_C13_C14_C15_C16_C22_C23_C24_C25_C26_C33_C34_C35_C36_C44_C45_C46_C55_C56_C66
+      C11 C12 C13 C14 C15 C16 C22 C23 C24 C25 C26 C33 C34 C35 C36 C44 C45 C46 C55 C56 C66)) :=
+  ⟨cubic_symm C11 C12 C44, hexagonal_symm C11 C12 C13 C33 C44, rhombohedral_symm C11 C12 C13 C14 C15 C33 C44,
+   tetragonal_symm C11 C12 C13 C16 C33 C44 C66, orthorhombic_symm C11 C12 C13 C22 C23 C33 C44 C55 C66,
+   monoclinic_symm C11 C12 C13 C15 C22 C23 C25 C33 C35 C44 C46 C55 C66,
+   triclinic_symm C11 C12 C13 C14 C15 C16 C22 C23 C24 C25 C26 C33 C34 C35 C36 C44 C45 C46 C55 C56 C66⟩
+
+/-- the named constants are the Voigt components they are named after: `Cab` sits at `[a-1, b-1]` of the template
+    (and `2 C66 = C11 - C12` where `C66` is dependent). -/
+theorem named_constants_placed
+    (C11 C12 C13 C14 C15 C16 C22 C23 C24 C25 C26 C33 C34 C35 C36 C44 C45 C46 C55 C56 C66 : K) :
+    (let c := m6 (ctor_C11_C12_C44 C11 C12 C44); c 0 0 = C11 ∧ c 0 1 = C12 ∧ c 3 3 = C44) ∧
+    (let c := m6 (ctor_C11_C12_C13_C33_C44 C11 C12 C13 C33 C44)
+     c 0 0 = C11 ∧ c 0 1 = C12 ∧ c 0 2 = C13 ∧ c 2 2 = C33 ∧ c 3 3 = C44 ∧ 2 * c 5 5 = C11 - C12) ∧
+    (let c := m6 (ctor_C11_C12_C13_C14_C15_C33_C44 C11 C12 C13 C14 C15 C33 C44)
+     c 0 0 = C11 ∧ c 0 1 = C12 ∧ c 0 2 = C13 ∧ c 0 3 = C14 ∧ c 0 4 = C15 ∧ c 2 2 = C33 ∧ c 3 3 = C44 ∧
+       2 * c 5 5 = C11 - C12) ∧
+    (let c := m6 (ctor_C11_C12_C13_C16_C33_C44_C66 C11 C12 C13 C16 C33 C44 C66)
+     c 0 0 = C11 ∧ c 0 1 = C12 ∧ c 0 2 = C13 ∧ c 0 5 = C16 ∧ c 2 2 = C33 ∧ c 3 3 = C44 ∧ c 5 5 = C66) ∧
+    (let c := m6 (ctor_C11_C12_C13_C22_C23_C33_C44_C55_C66 C11 C12 C13 C22 C23 C33 C44 C55 C66)
+     c 0 0 = C11 ∧ c 0 1 = C12 ∧ c 0 2 = C13 ∧ c 1 1 = C22 ∧ c 1 2 = C23 ∧ c 2 2 = C33 ∧ c 3 3 = C44 ∧ c 4 4 = C55 ∧
+       c 5 5 = C66) ∧
+    (let c := m6 (ctor_C11_C12_C13_C15_C22_C23_C25_C33_C35_C44_C46_C55_C66
+       C11 C12 C13 C15 C22 C23 C25 C33 C35 C44 C46 C55 C66)
+     c 0 0 = C11 ∧ c 0 1 = C12 ∧ c 0 2 = C13 ∧ c 0 4 = C15 ∧ c 1 1 = C22 ∧ c 1 2 = C23 ∧ c 1 4 = C25 ∧ c 2 2 = C33 ∧
+       c 2 4 = C35 ∧ c 3 3 = C44 ∧ c 3 5 = C46 ∧ c 4 4 = C55 ∧ c 5 5 = C66) ∧
+    (let c := m6 (ctor_C11_C12_C13_C14_C15_C16_C22_C23_C24_C25_C26_C33_C34_C35_C36_C44_C45_C46_C55_C56_C66
+       C11 C12 C13 C14 C15 C16 C22 C23 C24 C25 C26 C33 C34 C35 C36 C44 C45 C46 C55 C56 C66)
+     c 0 0 = C11 ∧ c 0 1 = C12 ∧ c 0 2 = C13 ∧ c 0 3 = C14 ∧ c 0 4 = C15 ∧ c 0 5 = C16 ∧ c 1 1 = C22 ∧ c 1 2 = C23 ∧
+     c 1 3 = C24 ∧ c 1 4 = C25 ∧ c 1 5 = C26 ∧ c 2 2 = C33 ∧ c 2 3 = C34 ∧ c 2 4 = C35 ∧ c 2 5 = C36 ∧ c 3 3 = C44 ∧
+     c 3 4 = C45 ∧ c 3 5 = C46 ∧ c 4 4 = C55 ∧ c 4 5 = C56 ∧ c 5 5 = C66) :=
+  ⟨cubic_named C11 C12 C44, hexagonal_named C11 C12 C13 C33 C44, rhombohedral_named C11 C12 C13 C14 C15 C33 C44,
+   tetragonal_named C11 C12 C13 C16 C33 C44 C66, orthorhombic_named C11 C12 C13 C22 C23 C33 C44 C55 C66,
+   monoclinic_named C11 C12 C13 C15 C22 C23 C25 C33 C35 C44 C46 C55 C66,
+   triclinic_named C11 C12 C13 C14 C15 C16 C22 C23 C24 C25 C26 C33 C34 C35 C36 C44 C45 C46 C55 C56 C66⟩
+
 /-- all the rotations named above are proper rotations. -/
 theorem generators_proper :
     ProperRot (R4z : M33 K) ∧ ProperRot (R4x : M33 K) ∧ ProperRot (R4y : M33 K) ∧ ProperRot (R3d : M33 K) ∧
